@@ -262,7 +262,7 @@ func c10Scope(ctx *core.Ctx) []*ssa.Function {
 }
 
 func C10(ctx *core.Ctx, r *core.Report) {
-	r.Explanation = "Integer-width reasoning over every numeric conversion in the conversion front end (package val, node/value.go): a conversion whose source range is not contained in the destination range must be dominated by comparisons that confine the operand to the destination type's limits (and, for float→integer, by an integrality test), or take its operand from strconv.ParseInt/ParseUint with a matching bit size. Also: val.Conv's dispatch never yields a zero value with a nil error, and the value of a failed call is not used. Not decided: string formats accepted, union member choice, enum/bits/identityref lookup."
+	r.Explanation = "Integer-width reasoning over every numeric conversion in the conversion front end (package val, node/value.go): a conversion whose source range is not contained in the destination range must be dominated by comparisons that confine the operand to the destination type's limits (and, for float→integer, by an integrality test), or take its operand from strconv.ParseInt/ParseUint with a matching bit size. Also: val.Conv's dispatch never yields a zero value with a nil error, and the value of a failed call is not used. Text is parsed in base 10; an error raised inside a conversion loop is tested inside that loop; floats are printed with precision -1. Not decided: string formats accepted, union member choice, enum/bits/identityref lookup."
 	fns := c10Scope(ctx)
 	r.Count("functions_in_scope", len(fns))
 	nConv, nSafe := lossyConversions(ctx, r, fns, c10Triage)
